@@ -949,7 +949,9 @@ func dispatchTablesIn(f *FuncInfo) []dispatchTable {
 			switch x := st.(type) {
 			case *ast.SwitchStmt:
 				if x.Tag != nil {
-					out = append(out, dispatchTable{buildSwitchTable(info, x), x.Pos()})
+					t := buildSwitchTable(info, x)
+					augmentSwitchTable(info, t, list, i)
+					out = append(out, dispatchTable{t, t.At})
 				}
 				for _, cc := range x.Body.List {
 					visit(cc.(*ast.CaseClause).Body)
@@ -991,4 +993,69 @@ func dispatchTablesIn(f *FuncInfo) []dispatchTable {
 		visit(f.Body().List)
 	}
 	return out
+}
+
+// augmentSwitchTable completes the table of the tagged switch list[i] over a plain variable by the two spellings that
+// move an arm out of the switch: `if v == K { ...; return }` statements in front of it (arms handled by an early
+// return) and, when the switch has no default, the statements behind it (what runs for every value no arm took).
+func augmentSwitchTable(info *types.Info, t *SwitchTable, list []ast.Stmt, i int) {
+	if t.TagObj == nil {
+		return
+	}
+	terminates := func(b []ast.Stmt) bool {
+		if len(b) == 0 {
+			return false
+		}
+		_, ok := b[len(b)-1].(*ast.ReturnStmt)
+		return ok
+	}
+	var front []*SwitchArm
+	for j := i - 1; j >= 0; j-- {
+		is, ok := list[j].(*ast.IfStmt)
+		if !ok || is.Init != nil || is.Else != nil || !terminates(is.Body.List) {
+			break
+		}
+		var ks []*types.Const
+		var vs []string
+		var walk func(e ast.Expr) bool
+		walk = func(e ast.Expr) bool {
+			be, ok := ast.Unparen(e).(*ast.BinaryExpr)
+			if !ok {
+				return false
+			}
+			if be.Op == token.LOR {
+				return walk(be.X) && walk(be.Y)
+			}
+			if be.Op != token.EQL {
+				return false
+			}
+			v, k := be.X, be.Y
+			if constOf(info, v) != nil {
+				v, k = k, v
+			}
+			kc := constOf(info, k)
+			if kc == nil || objOfIdent(info, v) != t.TagObj {
+				return false
+			}
+			sv, _ := constString(info, k)
+			ks, vs = append(ks, kc), append(vs, sv)
+			return true
+		}
+		if !walk(is.Cond) {
+			break
+		}
+		front = append([]*SwitchArm{{Labels: ks, Values: vs, Body: is.Body.List, Clauses: []*ast.CaseClause{{Body: is.Body.List}}}}, front...)
+		t.At = is.Pos()
+	}
+	t.Arms = append(front, t.Arms...)
+	hasDefault := false
+	for _, a := range t.Arms {
+		if a.Default {
+			hasDefault = true
+		}
+	}
+	if !hasDefault && i+1 < len(list) {
+		rest := list[i+1:]
+		t.Arms = append(t.Arms, &SwitchArm{Default: true, Body: rest, Clauses: []*ast.CaseClause{{Body: rest}}})
+	}
 }
